@@ -1,6 +1,7 @@
 #![allow(dead_code)]
 mod connx;
 mod explore;
+mod par;
 mod props;
 mod spec;
 mod stream;
